@@ -147,3 +147,68 @@ Lemma forward_skips_consuming t k m vs :
 Proof.
   intros H R. unfold fwd_dispatch, gen_forward. rewrite (gen_forward_from_nth _ 0 k m H). unfold gen_forward_method. rewrite R. now destruct (m_vtbl_only m).
 Qed.
+
+(* ---- #[skip_func]: a skipped method takes no slot and shifts nothing ---------------------------------------------- *)
+Lemma enc_all_length l : forall pos, length (enc_all pos l) = length l.
+Proof. induction l as [|x l IH]; intros pos; cbn [enc_all length]; [reflexivity|]. now rewrite IH. Qed.
+
+Lemma dec_methods_length rows : forall ms, dec_methods rows = Some ms -> length ms = length rows.
+Proof.
+  induction rows as [|r rs IH]; intros ms H; cbn [dec_methods] in H.
+  - inversion H. reflexivity.
+  - destruct (dec_method r); [|discriminate]. destruct (dec_methods rs) as [l|]; [|discriminate].
+    inversion H; subst. cbn [length]. now rewrite (IH l eq_refl).
+Qed.
+
+Lemma strip_merge rows : forall irs, length irs = length (exported rows) -> strip_skipped rows (merge_skipped rows irs) = irs.
+Proof.
+  induction rows as [|r rs IH]; intros irs L; cbn [exported filter] in L.
+  - destruct irs; [reflexivity|discriminate].
+  - cbn [merge_skipped]. destruct (is_skipped r) eqn:S; cbn [negb] in L.
+    + cbn [strip_skipped]. rewrite S. apply IH. exact L.
+    + destruct irs as [|i rest]; [discriminate|]. cbn [strip_skipped]. rewrite S. f_equal. apply IH. cbn [length] in L. now inversion L.
+Qed.
+
+Lemma merge_marks rows : forall irs k r, length irs = length (exported rows) ->
+  nth_error rows k = Some r -> is_skipped r = true -> nth_error (merge_skipped rows irs) k = Some [-9; 0; 0; 0].
+Proof.
+  induction rows as [|x rs IH]; intros irs k r L H S; [destruct k; discriminate|].
+  cbn [exported filter] in L. cbn [merge_skipped]. destruct k as [|k]; cbn [nth_error] in H.
+  - inversion H; subst. now rewrite S.
+  - destruct (is_skipped x) eqn:SX; cbn [negb] in L.
+    + cbn [nth_error]. eapply IH; eauto.
+    + destruct irs as [|i rest]; [discriminate|]. cbn [nth_error]. eapply IH; eauto; try (cbn [length] in L; now inversion L).
+Qed.
+
+Lemma exported_idem rows : exported (exported rows) = exported rows.
+Proof.
+  unfold exported. induction rows as [|r rs IH]; cbn [filter]; [reflexivity|].
+  destruct (is_skipped r) eqn:S; cbn [negb]; [exact IH|]. cbn [filter]. rewrite S. cbn [negb]. now rewrite IH.
+Qed.
+
+Lemma filter_len_le {A} (f : A -> bool) l : (length (filter f l) <= length l)%nat.
+Proof. induction l as [|x l IH]; cbn [filter length]; [lia|]. destruct (f x); cbn [length]; lia. Qed.
+
+Lemma merge_none rows : forall irs, length irs = length rows -> exported rows = rows -> merge_skipped rows irs = irs.
+Proof.
+  induction rows as [|r rs IH]; intros irs L E.
+  - destruct irs; [reflexivity|discriminate].
+  - cbn [exported filter] in E. destruct (is_skipped r) eqn:S; cbn [negb] in E.
+    + exfalso. assert (Hl : (length (filter (fun r0 => negb (is_skipped r0)) rs) <= length rs)%nat) by apply filter_len_le.
+      rewrite E in Hl. cbn [length] in Hl. lia.
+    + destruct irs as [|i rest]; [discriminate|]. cbn [merge_skipped]. rewrite S. f_equal. apply IH; [cbn [length] in L; now inversion L|].
+      inversion E as [E']. unfold exported. now rewrite E'.
+Qed.
+
+Theorem skip_func_rows p rows ms : dec_methods (exported rows) = Some ms ->
+  strip_skipped rows (run_gen p rows) = run_gen p (exported rows) /\
+  (forall k r, nth_error rows k = Some r -> is_skipped r = true -> nth_error (run_gen p rows) k = Some [-9; 0; 0; 0]).
+Proof.
+  intros D. unfold run_gen. rewrite exported_idem, D.
+  set (irs := enc_all 0 (gen_trait _)).
+  assert (L : length irs = length (exported rows)).
+  { unfold irs, gen_trait. rewrite enc_all_length, gen_from_length. cbn [t_methods]. now apply dec_methods_length. }
+  split.
+  - rewrite (strip_merge rows irs L). symmetry. apply merge_none; [exact L|apply exported_idem].
+  - intros k r H S. eapply merge_marks; eauto.
+Qed.
